@@ -109,15 +109,29 @@ func VerifC15OverlapWhole() {
 	n := wf.AddLambdaNode("n", InvokableLambda(id))
 	wholeFirst := vchoose("wholeFirst", 2) == 1
 	fromField := vchoose("fromField", 2) == 1 // the whole-input mapping may still select a source field
+	wholeIndirect := vchoose("wholeIndirect", 2) == 1 // the whole output may arrive over a data-only input
+	fieldKind := vchoose("fieldKind", 3)             // the field: data-only from START, direct from START, or a second whole data-only input
 	whole := func() {
+		var ms []*FieldMapping
 		if fromField {
-			n.AddInput("m", FromField("x"))
+			ms = []*FieldMapping{FromField("x")}
+		}
+		if wholeIndirect {
+			n.AddInputWithOptions("m", ms, WithNoDirectDependency())
+			n.AddDependency("m")
 		} else {
-			n.AddInput("m")
+			n.AddInput("m", ms...)
 		}
 	}
 	field := func() {
-		n.AddInputWithOptions(START, []*FieldMapping{MapFields("x", "a")}, WithNoDirectDependency())
+		switch fieldKind {
+		case 0:
+			n.AddInputWithOptions(START, []*FieldMapping{MapFields("x", "a")}, WithNoDirectDependency())
+		case 1:
+			n.AddInput(START, MapFields("x", "a"))
+		case 2:
+			n.AddInputWithOptions(START, nil, WithNoDirectDependency())
+		}
 	}
 	if wholeFirst {
 		whole()
